@@ -241,9 +241,15 @@ def vc_codegen_product(H):
                         kwargs['keyout_func'] = AbstractFn(fK)
                     r = clo(x, y, **kwargs)
                     # exit path: the function must return the dict that satisfies the invariant at L
-                    if not isinstance(r, FunDict):
-                        ctx.oblige('post: returns the accumulated dict', False)
+                    if isinstance(r, dict) and not r:
+                        # an early return of a fresh empty dict: right exactly when there is no pair to accumulate
+                        ctx.oblige('post: an empty result returned without accumulation only if an operand stores no blade',
+                                   z3.Or(x.n.t == 0, y.n.t == 0))
                         return r
+                    if not isinstance(r, FunDict):
+                        # the result is not the dictionary this contract follows through the loop: the contract does not apply
+                        raise OutOfSubset(f'codegen_product returns {type(r).__name__}, not the dict accumulated in the loop under contract')
+                    ctx.oblige('post: returns the accumulated dict', True)
                     kk = SKey.fresh(ctx.fresh('kq'), 0, (1 << W) - 1)
                     ctx.assume(alg.valid_key(kk))
                     m = state['m']
